@@ -104,8 +104,15 @@ class EInfoAdapter:
                 self.ei = capture(d, kind)
             finally:
                 sys.setrecursionlimit(self._old_limit)
-            self.first = self._sig(self.ei)
-            chain = _chain(self.ei.tb)
+            try:
+                self.first = self._sig(self.ei)
+                chain = _chain(self.ei.tb)
+            except Exception:
+                # the record's traceback object cannot even be walked
+                self.first = None
+                st.update(phase='have', d=d, kind=kind, frames=min(d, self.c['Limit'] + 2),
+                          trunc=d > self.c['Limit'] + 2, same=False)
+                return
             trunc = bool(chain) and chain[-1][0] == '[rest of traceback truncated]'
             real = chain[:-1] if trunc else chain
             st.update(phase='have', d=d, kind=kind, frames=len(real), trunc=trunc)
@@ -121,16 +128,22 @@ class EInfoAdapter:
                 ok = ok and real[-1][0] == ('_raise' if d >= 2 else 'capture')
             st['same'] = bool(ok)
         elif n == 'Pickle':
-            self.ei = pickle.loads(pickle.dumps(self.ei))
             st['npickle'] += 1
             st['formatted'] = False
-            st['same'] = st['same'] and self._sig(self.ei) == self.first
+            try:
+                self.ei = pickle.loads(pickle.dumps(self.ei))
+                st['same'] = st['same'] and self._sig(self.ei) == self.first
+            except Exception:
+                st['same'] = False
         elif n == 'Format':
             exc = self.ei.exception
-            text = ''.join(traceback.format_exception(self.ei.type, exc, self.ei.tb))
-            chain = _chain(self.ei.tb)
-            ok = all(('in %s' % fn) in text or fn.startswith('[rest') for fn, _ in chain)
-            ok = ok and traceback.extract_tb(self.ei.tb) is not None
+            try:
+                text = ''.join(traceback.format_exception(self.ei.type, exc, self.ei.tb))
+                chain = _chain(self.ei.tb)
+                ok = all(('in %s' % fn) in text or fn.startswith('[rest') for fn, _ in chain)
+                ok = ok and traceback.extract_tb(self.ei.tb) is not None
+            except Exception:
+                ok = False            # the standard traceback module cannot format the record
             st['formatted'] = True
             st['same'] = st['same'] and ok
         else:
